@@ -128,7 +128,7 @@ def run(ctx):
         try:
             loc1, loc2 = rnd.sample(LOCATIONS, 2)
             order = rnd.randint(1, 10**6)
-            spell = rnd.choice([None, "slash", "relative", "cwd", "dot"])
+            spell = rnd.choice([None, "slash", "relative", "cwd", "dot", "updir", "symlink"])
             a, ea, ra = run_world(sc, os.path.join(base, "w1"), loc1, None)
             b, eb, rb = run_world(sc, os.path.join(base, "w2"), loc2, None, spell)
             c, ec, rc = run_world(sc, os.path.join(base, "w3"), loc1, order)
